@@ -77,7 +77,12 @@ func ruleEmphK(c *Ctx) {
 			return
 		}
 		if f, ok := fieldOfLoad(v, closSp, clos); ok {
-			closeFields[f] = true
+			for _, fm := range fieldMasks(v, f) {
+				// a bit the predicate requires to be set for every match need not be part of the key
+				if !maskRequiredForTrue(pred, v, fm) {
+					closeFields[fm] = true
+				}
+			}
 		}
 		if bo, ok := in.(*ssa.BinOp); ok && bo.Op == token.EQL {
 			for _, pair := range [][2]ssa.Value{{bo.X, bo.Y}, {bo.Y, bo.X}} {
@@ -116,7 +121,9 @@ func ruleEmphK(c *Ctx) {
 			}
 			seen[v] = true
 			if f, ok := fieldOfLoad(v, recvSp, recv); ok {
-				acc[f] = true
+				for _, fm := range fieldMasks(v, f) {
+					acc[fm] = true
+				}
 				return
 			}
 			switch x := v.(type) {
@@ -525,3 +532,103 @@ func init() {
 }
 
 func constantInt(v int64) constant.Value { return constant.MakeInt64(v) }
+
+// fieldMasks refines a field read into field&mask reads when every use of the loaded value is a bit test with a
+// constant mask (flags&openerFlag); otherwise the whole field.
+func fieldMasks(load ssa.Value, field string) []string {
+	var out []string
+	whole := false
+	for _, r := range refsOf(load) {
+		bo, ok := r.(*ssa.BinOp)
+		if ok && bo.Op == token.AND {
+			if k, ok := constInt(bo.Y); ok {
+				out = append(out, fmt.Sprintf("%s&%d", field, k))
+				continue
+			}
+			if k, ok := constInt(bo.X); ok {
+				out = append(out, fmt.Sprintf("%s&%d", field, k))
+				continue
+			}
+		}
+		whole = true
+	}
+	if whole || len(out) == 0 {
+		return []string{field}
+	}
+	return out
+}
+
+// maskRequiredForTrue: the predicate can return true only when (load & mask) != 0 — every phi edge / return that yields
+// a non-false value lies behind the non-zero edge of that test.
+func maskRequiredForTrue(pred *ssa.Function, load ssa.Value, fm string) bool {
+	i := strings.Index(fm, "&")
+	if i < 0 {
+		return false
+	}
+	var mask int64
+	fmt.Sscanf(fm[i+1:], "%d", &mask)
+	// the test blocks
+	type edge struct {
+		b   *ssa.BasicBlock
+		idx int
+	}
+	var tests []edge
+	for _, b := range pred.Blocks {
+		iff := blockIf(b)
+		if iff == nil {
+			continue
+		}
+		bo, ok := iff.Cond.(*ssa.BinOp)
+		if !ok || (bo.Op != token.NEQ && bo.Op != token.EQL) || !isZero(bo.Y) {
+			continue
+		}
+		and, ok := bo.X.(*ssa.BinOp)
+		if !ok || and.Op != token.AND || and.X != load {
+			continue
+		}
+		if k, ok := constInt(and.Y); !ok || k != mask {
+			continue
+		}
+		idx := 0
+		if bo.Op == token.EQL {
+			idx = 1
+		}
+		tests = append(tests, edge{b, idx})
+	}
+	if len(tests) == 0 {
+		return false
+	}
+	// sources of a possibly-true result
+	okAll := true
+	found := false
+	for _, r := range returnsOf(pred) {
+		var visit func(v ssa.Value, from *ssa.BasicBlock, seen map[ssa.Value]bool)
+		visit = func(v ssa.Value, from *ssa.BasicBlock, seen map[ssa.Value]bool) {
+			if seen[v] {
+				return
+			}
+			seen[v] = true
+			if ph, ok := v.(*ssa.Phi); ok {
+				for i, e := range ph.Edges {
+					visit(e, ph.Block().Preds[i], seen)
+				}
+				return
+			}
+			if cv, ok := v.(*ssa.Const); ok && cv.Value != nil && cv.Value.String() == "false" {
+				return
+			}
+			found = true
+			dom := false
+			for _, t := range tests {
+				if edgeDominates(t.b, t.idx, from) {
+					dom = true
+				}
+			}
+			if !dom {
+				okAll = false
+			}
+		}
+		visit(r.Results[0], r.Block(), map[ssa.Value]bool{})
+	}
+	return found && okAll
+}
